@@ -487,6 +487,10 @@ func (t *WeightedMerkleTrie) RollbackTrie(node Node) {
 		batcher.Commit(false) //nolint:errcheck
 	}
 	t.created = nil
+	// the pending deletes were collected on the way to the state that is rolled
+	// back; they name nodes of the state we return to (as in Rollback)
+	t.tempDeleted = nil
+	t.tempDeletedCommitted = 0
 	clear(t.deleted)
 }
 
